@@ -121,7 +121,9 @@ CPU_OPS = ["aten::mm", "aten::add", "aten::addmm", "aten::relu", "aten::linear",
            "record_param_comms", "nccl:all_reduce"]
 AUTOGRAD_OPS = ["autograd::engine::evaluate_function: AddmmBackward0", "autograd::engine::evaluate_function: ReluBackward0",
                 "autograd::engine::evaluate_function: torch::autograd::AccumulateGrad", "AddmmBackward0", "ReluBackward0"]
-USER_ANNOTATIONS = ["forward", "loss", "## backward ##", "optimizer", "data_loading", "u_block_a", "u_block_b"]
+USER_ANNOTATIONS = ["forward", "loss", "## backward ##", "optimizer", "data_loading", "u_block_a", "u_block_b",
+                    "attention (flash)"]  # the last one: HTA's short form of this name is the empty string
+PYTHON_FRAMES = ["torch/nn/modules/module.py(1501): _call_impl", "train.py(42): train_step", "<built-in method linear of type object>"]
 TEMPLATE_OPS = {
     "void my::op<int, float>(char const*, std::vector<int>)": "my::op",
     "at::Tensor my::op<double>(at::Tensor const&)": "my::op",
